@@ -1747,6 +1747,8 @@ def Executor_call_builtin(self, name, st, args, kwargs, node, ev):
             return len(a)
         if isinstance(a, SeqVal):
             return a.n
+        if hasattr(a, "sym_len"):
+            return a.sym_len()
         raise Outside("len of " + type(a).__name__)
     if name in ("min", "max"):
         if len(args) == 1 and isinstance(args[0], (tuple, list)):
